@@ -45,6 +45,15 @@ def step (s : St) (line : String) : St × String :=
   match words line with
   | ["reset"] => ({}, "ok")
   | "probe" :: _ => (s, "-")
+  | ["opencut", "up"] => let s' := Iscp.ConnM.step (Iscp.ConnM.step s .kill) (.openStream .up); (s', summary s')
+  | ["opencut", "down"] => let s' := Iscp.ConnM.step (Iscp.ConnM.step s .kill) (.openStream .down); (s', summary s')
+  | ["reqshort", _] => (s, summary s)
+  | ["reqcutfast", r] =>
+    let s' := Iscp.ConnM.step (Iscp.ConnM.step s (.requestCut (nat r))) (.dial true); (s', summary s')
+  | ["opencutfast", "up"] =>
+    let s' := Iscp.ConnM.step (Iscp.ConnM.step (Iscp.ConnM.step s .kill) (.openStream .up)) (.dial true); (s', summary s')
+  | ["opencutfast", "down"] =>
+    let s' := Iscp.ConnM.step (Iscp.ConnM.step (Iscp.ConnM.step s .kill) (.openStream .down)) (.dial true); (s', summary s')
   | ["killfast"] => let s' := Iscp.ConnM.step (Iscp.ConnM.step s .kill) (.dial true); (s', summary s')
   | ["failclose"] => let s' := Iscp.ConnM.step (Iscp.ConnM.step s (.dial false)) .close; (s', summary s')
   | w =>
